@@ -12,15 +12,19 @@ for d in sorted(glob.glob('/verif/seeded/*')):
     change=j['change']
     change=change if len(change)<230 else change[:227]+'...'
     rows.append((os.path.basename(d), j['property'], change.replace('|','/'), first, res.replace('|','/')))
+still=[]
 out=['| seed | property | change (summary) | first run of the check | how it is caught now |','|---|---|---|---|---|']
 for r in rows:
     now=r[4]
     # keep the part after "Strengthened:" / "caught"
     mm=re.search(r'(now caught[^;]*|caught at quick[^;]*|now exit 1[^;]*)', now)
-    out.append(f"| {r[0]} | {r[1]} | {r[2]} | {r[3]} | {mm.group(1) if mm else now[:160]} |")
+    open_=('Not strengthened' in now) or ('not shown caught' in now)
+    if open_:
+        still.append(r[0])
+    out.append(f"| {r[0]} | {r[1]} | {r[2]} | {r[3]} | {('NOT CAUGHT: '+now[now.index('MISSED')+7:][:260]) if open_ else (mm.group(1) if mm else now[:160])} |")
 n=len(rows); missed=sum(1 for r in rows if r[3]!='caught')
 out.append('')
-out.append(f"{n} seeded changes, {n-missed} caught by the check as it stood when the change arrived, {missed} not (every one of those is caught after the strengthening described in its meta.json).")
+out.append(f"{n} seeded changes, {n-missed} caught by the check as it stood when the change arrived, {missed} not; of those {missed-len(still)} are caught after the strengthening described in their meta.json and {len(still)} are still not caught ({', '.join(still)}: see their rows).")
 p='/verif/DESIGN.md'
 s=open(p).read()
 i=s.index('<!-- SEEDS-TABLE-BEGIN -->')+len('<!-- SEEDS-TABLE-BEGIN -->')
